@@ -47,6 +47,7 @@ import (
 	"github.com/AliceO2Group/Control/common/system"
 	"github.com/AliceO2Group/Control/common/utils"
 	"github.com/AliceO2Group/Control/common/utils/uid"
+	"github.com/AliceO2Group/Control/common/verifhook"
 	"github.com/AliceO2Group/Control/core/task"
 	"github.com/AliceO2Group/Control/core/task/sm"
 	"github.com/AliceO2Group/Control/core/the"
@@ -1186,6 +1187,7 @@ func (env *Environment) subscribeToWfState(taskman *task.Manager) {
 			for {
 				select {
 				case wfState = <-notify:
+					verifhook.Point("env.wfwatch.afterRecv")
 					if wfState == sm.ERROR {
 						if !handlingError {
 							handlingError = true
